@@ -12,10 +12,8 @@
  *    a wrong-key peer (certificate A, private key B) never completes, whatever the callback says;
  *    with no callback every failure is fatal - for every protocol version alike. */
 #include "mx.h"
-#include "certgen.h"
 
-enum { L_GOOD = 0, L_EXPIRED_LEAF, L_NOTYET_LEAF, L_UNTRUSTED, L_SIG_CORRUPT, L_WRONG_NAME, L_ISSUER_NOT_CA, L_UNKNOWN_CRIT, L_EXPIRED_INT, L_SELF_SIGNED, L_WRONG_KEY, L_ANCHOR_PATHLEN, L_INT_PATHLEN, L_NO_TRUST, L_N };
-static const char *lname[] = { "good", "expired-leaf", "not-yet-valid-leaf", "untrusted-ca", "signature-corrupt", "wrong-expected-name", "issuer-not-ca", "unknown-critical-extension", "expired-intermediate", "self-signed-unanchored", "wrong-key-proof-of-possession", "anchor-pathlen-exceeded", "intermediate-pathlen-exceeded", "verifier-has-no-trust-anchors" };
+#include "c04_mint.h"   /* labels + mint_der(): shared with the OpenSSL-prover stage (c04_ossl.c) */
 enum { CB_NONE = 0, CB_STRICT, CB_PERMISSIVE, CB_ANON, CB_N };   /* CB_ANON: the server's callback answers SSL_ALLOW_ANON_CONNECTION (continue, peer treated as anonymous) */
 static const char *cbname[] = { "no-callback", "strict-callback", "permissive-callback", "allow-anon-callback" };
 typedef struct { const char *name; int ver; uint16_t suite; int leafType; int verifierIsServer; } scn_t;
@@ -38,47 +36,16 @@ static int32 cb_anon(ssl_t *ssl, psX509Cert_t *c, int32 alert) { (void) ssl; (vo
 typedef struct { char *chainPem, *keyPem, *caPem; const char *expected; } cred_t;
 static void append(char **dst, char *src) { size_t a = *dst ? strlen(*dst) : 0, b = strlen(src); *dst = realloc(*dst, a + b + 1); memcpy(*dst + a, src, b + 1); free(src); }
 
-/* mint the peer's credentials for one label; returns 0 on success */
+/* mint the peer's credentials for one label (c04_mint.h) and hand them over as PEM; returns 0 on success */
 static int mint(const scn_t *s, int label, int viaInt, cred_t *out)
 {
-    long now = mx_now; memset(out, 0, sizeof *out);
-    int rootType = s->leafType == CG_K_ED25519 ? CG_K_P256 : (s->leafType == CG_K_P256 ? CG_K_P256 : CG_K_RSA2048);
-    const cg_key *rootK = cg_key_get(rootType, 0), *otherRootK = cg_key_get(rootType, 3), *intK = cg_key_get(rootType == CG_K_P256 ? CG_K_P256 : CG_K_RSA2048, 1);
-    const cg_key *leafK = cg_key_get(s->leafType, 2), *wrongK = cg_key_get(s->leafType, 4);
-    if (!rootK || !otherRootK || !intK || !leafK || !wrongK) return -1;
-    const cg_key *int2K = cg_key_get(rootType == CG_K_P256 ? CG_K_P256 : CG_K_RSA2048, 5); if (!int2K) return -1;
-    cg_spec root, oroot, inter, inter2, leaf; cg_cert rc = { 0 }, oc = { 0 }, ic = { 0 }, i2c = { 0 }, lc = { 0 };
-    /* anchor-pathlen-exceeded: the trust anchor itself says "no intermediate CA below me" and the peer presents one */
-    cg_spec_ca(&root, "Verif C04", "c04 root", rootK, NULL, NULL, now, label == L_ANCHOR_PATHLEN ? 0 : -1);
-    cg_spec_ca(&oroot, "Verif C04", "c04 other root", otherRootK, NULL, NULL, now, -1);
-    int useInt2 = label == L_INT_PATHLEN;
-    int useInt = label == L_ISSUER_NOT_CA || label == L_EXPIRED_INT || label == L_ANCHOR_PATHLEN || label == L_INT_PATHLEN || viaInt;
-    if (useInt) {
-        cg_spec_ca(&inter, "Verif C04", "c04 intermediate", intK, &root, rootK, now, label == L_INT_PATHLEN ? 0 : -1);
-        if (useInt2) cg_spec_ca(&inter2, "Verif C04", "c04 second intermediate", int2K, &inter, intK, now, -1);
-        if (label == L_ISSUER_NOT_CA) { inter.bc_ca = 0; }
-        if (label == L_EXPIRED_INT) { inter.not_before = now - 400L * 86400; inter.not_after = now - 10L * 86400; }
-    }
-    long leafNotBefore = label == L_EXPIRED_INT ? now - 400L * 86400 : 0;
-    const char *host = s->verifierIsServer ? "client.c04.test" : "server.c04.test";
-    cg_spec_leaf(&leaf, "Verif C04", host, leafK, useInt2 ? &inter2 : useInt ? &inter : &root, useInt2 ? int2K : useInt ? intK : rootK, now);
-    if (leafNotBefore) leaf.not_before = leafNotBefore;
-    switch (label) {
-    case L_EXPIRED_LEAF: leaf.not_before = now - 400L * 86400; leaf.not_after = now - 10L * 86400; break;
-    case L_NOTYET_LEAF: leaf.not_before = now + 10L * 86400; leaf.not_after = now + 400L * 86400; break;
-    case L_SIG_CORRUPT: leaf.sigmode = CG_SM_FLIP; leaf.flip_bit = 77; break;
-    case L_UNKNOWN_CRIT: leaf.unk = 2; break;
-    case L_NO_TRUST:
-    case L_SELF_SIGNED: leaf.issuer = leaf.subject; leaf.signer = leafK; leaf.aki = 0; break;
-    default: break; }
-    if (cg_make_cert(&root, &rc) || cg_make_cert(&oroot, &oc) || cg_make_cert(&leaf, &lc) || (useInt && cg_make_cert(&inter, &ic)) || (useInt2 && cg_make_cert(&inter2, &i2c))) return -1;
-    append(&out->chainPem, cg_pem("CERTIFICATE", lc.der, lc.len));
-    if (useInt2) append(&out->chainPem, cg_pem("CERTIFICATE", i2c.der, i2c.len));
-    if (useInt) append(&out->chainPem, cg_pem("CERTIFICATE", ic.der, ic.len));
-    out->keyPem = cg_key_priv_pem(label == L_WRONG_KEY ? wrongK : leafK, 0);
-    out->caPem = label == L_UNTRUSTED ? cg_pem("CERTIFICATE", oc.der, oc.len) : cg_pem("CERTIFICATE", rc.der, rc.len);
-    out->expected = s->verifierIsServer ? NULL : (label == L_WRONG_NAME ? "other.c04.test" : host);
-    cg_cert_free(&rc); cg_cert_free(&oc); cg_cert_free(&lc); if (useInt) cg_cert_free(&ic); if (useInt2) cg_cert_free(&i2c);
+    mint_t m; memset(out, 0, sizeof *out);
+    if (mint_der(s->leafType, s->verifierIsServer, label, viaInt, &m) != 0) return -1;
+    for (int i = 0; i < m.nchain; i++) append(&out->chainPem, cg_pem("CERTIFICATE", m.chain[i].der, m.chain[i].len));
+    out->keyPem = cg_key_priv_pem(m.proverKey, 0);
+    out->caPem = cg_pem("CERTIFICATE", m.anchor.der, m.anchor.len);
+    out->expected = m.expected;
+    mint_free(&m);
     return 0;
 }
 
